@@ -236,7 +236,7 @@ CHECKS = {
     ),
     'C07': dict(
         category='other',
-        text=('Bounded exploration of payload texts (sequences of <= 2 (quick) / 3 symbols of a 19-symbol adversarial alphabet: quotes, backslash, newline, '
+        text=('Bounded exploration of payload texts (sequences of <= 2 (quick) / 3 symbols of a 24-symbol adversarial alphabet: quotes, backslash, newline, '
               '# { } %, brackets, wildcards, call-syntax attack strings) x 8 placement contexts (constant cell, plain literal, criterion literal, ">"& '
               'literal, SEARCH argument, DATEDIF unit, two-pair COUNTIFS, sheet title) x safety check on/off, enumerated by z3 and executed natively '
               'through the real Parser on real .xlsx files. Oracle: the generated module compiles and, with string constants blanked, has the same '
